@@ -1,4 +1,4 @@
-import Melda.Driver
+import Melda.SimDriver
 open Melda
 
 partial def loop (h : IO.FS.Stream) (out : IO.FS.Stream) : IO Unit := do
@@ -11,5 +11,20 @@ partial def loop (h : IO.FS.Stream) (out : IO.FS.Stream) : IO Unit := do
   | none => out.putStrLn "badjson"
   loop h out
 
-def main : IO Unit := do
-  loop (← IO.getStdin) (← IO.getStdout)
+partial def simLoop (h : IO.FS.Stream) (out : IO.FS.Stream) (reps : Array SimRep) : IO Unit := do
+  let line ← h.getLine
+  if line.isEmpty then return ()
+  let l := line.trimAscii.toString
+  if l.isEmpty then simLoop h out reps else
+  match parseJson l.toList with
+  | some req =>
+    let (reps', verdict) := simStep Hreal reps req
+    out.putStrLn (String.ofList verdict)
+    simLoop h out reps'
+  | none =>
+    out.putStrLn "badjson"
+    simLoop h out reps
+
+def main (args : List String) : IO Unit := do
+  if args.contains "sim" then simLoop (← IO.getStdin) (← IO.getStdout) #[]
+  else loop (← IO.getStdin) (← IO.getStdout)
